@@ -63,7 +63,33 @@ def rand_index(rng, d, kind=None, wild=0.08):
     return ["slice", st, sp, step]
 
 
+def gen_multi_error_case(rng):
+    """malformed items with SEVERAL independent error conditions (which one wins is part of the spec):
+    zero slice step, out-of-range integer, out-of-range list entry, lists that do not broadcast, too
+    many indices - in random positions"""
+    nd = rng.choice([1, 2, 2, 3, 3, 3])
+    shape = [rng.choice([1, 2, 3, 4]) for _ in range(nd)]
+    ni = nd + 1 if rng.random() < 0.2 else nd
+    item = []
+    for k in range(ni):
+        d = shape[k] if k < nd else 2
+        r = rng.random()
+        if r < 0.25:
+            item.append(["slice", rng.choice([None, 0, 1, -1, d + 1]), rng.choice([None, 1, d, -1, -d - 2]), 0])  # zero step
+        elif r < 0.45:
+            item.append(rng.choice([d, d + 1, -d - 1, -d - 2]))  # integer out of range
+        elif r < 0.65:
+            item.append([rng.choice([d, -d - 1, d + 2]) if rng.random() < 0.7 else rng.randint(-d, d - 1) for _ in range(rng.choice([1, 2, 3]))])  # list out of range
+        elif r < 0.8:
+            item.append([rng.randint(-d, d - 1) for _ in range(rng.choice([2, 3, 4]))])  # valid list (broadcast mismatch with others likely)
+        else:
+            item.append(rand_index(rng, d, wild=0.0))
+    return dict(shape=shape, item=item)
+
+
 def gen_case(rng):
+    if rng.random() < 0.2:
+        return gen_multi_error_case(rng)
     nd = rng.choice([0, 1, 2, 2, 3, 3, 3])
     shape = [rng.choice([1, 2, 2, 3, 3, 4, 4, 0] if rng.random() < 0.3 else [1, 2, 3, 4]) for _ in range(nd)]
     r = rng.random()
